@@ -295,6 +295,43 @@ func Families(b Bounds) []*Family {
 			Texts: dedupTexts(txt), Keys: []string{"", "a", "b", "aa", "ab", "aaa", "aab", "aaaa"}})
 	}
 
+	// wide and deep: the same a^j·Σ² sets plus ONE pattern that hangs a child under one of the
+	// two-letter nodes (each of them in turn), so that a node lost or mis-linked while the ring
+	// queue grows has a child the text reaches
+	for k := 4; k <= b.WideK; k++ {
+		sigma := strings.Split("abcdef"[:k], "")
+		var pairs []string
+		common.StringsOfLen(sigma, 2, func(s string) { pairs = append(pairs, s) })
+		var pats []string
+		var sets [][]int
+		var txt []Text
+		for j := 0; j <= 10; j++ {
+			pre := strings.Repeat("a", j)
+			base := len(pats)
+			for _, s := range pairs {
+				pats = append(pats, pre+s)
+			}
+			ext := len(pats)
+			for _, s := range pairs {
+				pats = append(pats, pre+s+"a")
+			}
+			for pi := range pairs {
+				var set []int
+				for i := range pairs {
+					set = append(set, base+i)
+				}
+				set = append(set, ext+pi)
+				sets = append(sets, set)
+			}
+			common.Strings(sigma, 3, func(s string) { txt = append(txt, mkText(pre+s)) })
+		}
+		fs = append(fs, &Family{
+			Name: fmt.Sprintf("wide-deep-%d", k),
+			Desc: fmt.Sprintf("alphabet %q: pattern sets a^j·Σ² (j = 0..10) plus one three-letter pattern a^j·xy·a under each two-letter node in turn (a node lost during ring-queue growth has a child the text reaches), histories all/rebuild-last; texts a^j·s for every s of length <= 3", strings.Join(sigma, ""), ),
+			Pats: pats, Sets: sets, Hists: []History{HAll, HRebuildLast},
+			Texts: dedupTexts(txt), Keys: []string{"", "a", "ab", "aab"}})
+	}
+
 	w := common.AllStrings(AlphaWidths, b.WPatLen)
 	wsets := subsets(len(w), 1, b.WSet)
 	fs = append(fs, &Family{
